@@ -457,7 +457,15 @@ func C04Scenario() *Scenario {
 		}
 		pol := &Policy{Name: "adversarial", Shuffle: true, HoldWatch: 150 * t.Pick(5, "hold"), EnvProb: 120, AdvanceProb: 20}
 		pol.ForceFault = s.ReplaceUnderWrite(40)
-		w.Cfg["policy"] = fmt.Sprintf("adversarial hold=%d", pol.HoldWatch)
+		// the live read of the parent that precedes an adoption fails now and then
+		// (overload, time-out): then there is no live confirmation, and no adoption
+		getFaults := []int{0, 0, 150, 400}[t.Pick(4, "getfaults")]
+		if getFaults > 0 {
+			pol.APIFault = getFaults
+			pol.APIFaults = []string{"503", "504", "500", "neterr"}
+			pol.FaultFilter = func(r *ReqRec) bool { return r.Verb == "get" && r.Res == s.Cfg.Parent && r.Sync >= 0 }
+		}
+		w.Cfg["policy"] = fmt.Sprintf("adversarial hold=%d parentGetFaults=%d", pol.HoldWatch, getFaults)
 		w.Invariants = append(w.Invariants, twoControllers)
 		w.Stages = []Stage{
 			{Name: "chaos", Policy: pol, Steps: 200 + 100*t.Pick(3, "len")},
